@@ -173,6 +173,18 @@ func (c *Ctx) BuildQuery(o *Obligation, produceModels bool) (string, int) {
 	hyp.WriteByte('\n')
 	hyp.WriteString(o.Goal.S)
 	unfolds := c.unfoldInstances(hyp.String())
+	// ground instances of the index axiom (sidx s k) = (s.off s) + k for numeral k: spares the solvers the quantifier
+	// instantiation in byte-level arithmetic goals (putint: cvc5 2 s with them, > 200 s without)
+	{
+		seenIdx := map[string]bool{}
+		for _, args := range findApps(hyp.String(), "sidx") {
+			if len(args) != 2 || !isNumLit(args[1]) || strings.Contains(args[0], "q!") || seenIdx[args[0]+"|"+args[1]] {
+				continue
+			}
+			seenIdx[args[0]+"|"+args[1]] = true
+			unfolds = append(unfolds, fmt.Sprintf("(= (sidx %s %s) (+ (s.off %s) %s))", args[0], args[1], args[0], args[1]))
+		}
+	}
 	// declarations actually used
 	used := map[string]bool{}
 	for s := range relevant {
